@@ -14,6 +14,7 @@ from .asttypes import (
     ASTS_LEAF_FTSTR,
     AST,
     ExceptHandler,
+    If,
     Match,
     Pass,
     Slice,
@@ -26,7 +27,7 @@ from .asttypes import (
 
 from .astutil import bistr
 
-from .common import NodeError, astfield
+from .common import NodeError, astfield, re_empty_line
 
 from .parsex import Mode, parse_ExceptHandler, parse_match_case
 from .code import Code, _code_as_lines
@@ -43,6 +44,11 @@ _PATH_BODY2HANDLERS = [astfield('body', 0), astfield('body', 0), astfield('handl
 _PATH_BODYCASES     = [astfield('body', 0), astfield('cases', 0)]
 
 
+class _ReparseShapeChanged(Exception):
+    """Raised by `_reparse_raw_base()` BEFORE anything is modified if the statement-level reparse does not give back exactly
+    the one statementlike node it expected."""
+
+
 def _reparse_raw_base(
     self: fst.FST,
     new_lines: list[str],
@@ -56,6 +62,7 @@ def _reparse_raw_base(
     mode: Mode | None = None,
     first_lineno: int = 0,  # should only be non-zero if we wish to apply column delta to it
     first_line_col_delta: int = 0,
+    shape_check: tuple[int, int, bool, bool] | None = None,
 ) -> fst.FST:
     """Actually do the reparse. If `mode` is `None` then will just try a normal `'exec'` parse and fail if that fails.
     Otherwise it will try this mode first, then all other parse modes as it is assumed to be a non-top-level
@@ -71,7 +78,7 @@ def _reparse_raw_base(
         copy_root = fst.FST.fromsrc(copy_root.src, mode or 'exec', **root._parse_params)
 
     except (SyntaxError, NodeError):
-        if mode is None or path:  # if there is a path then we expect the top level node to parse to the same thing successfully, if it does not then it is a genuine error
+        if mode is None or path or isinstance(root.a, mod):  # if there is a path then we expect the top level node to parse to the same thing successfully, if it does not then it is a genuine error, a `mod` root does not change into something else
             raise
 
         try:
@@ -84,6 +91,29 @@ def _reparse_raw_base(
         copy = copy_root
 
     else:
+        if shape_check:  # the wrapper we reparsed in must still hold exactly one statementlike at each level of the path, otherwise the edit moved source into or out of the statement (changed indentation, joined or split statements) and taking just the node at the path would silently drop the rest
+            a = copy_root.a
+
+            for field, idx in path:
+                if len(body := getattr(a, field)) != 1 or (field == 'body' and a.__class__ is If and a.orelse):  # the second is an `else` or `elif` which attached itself to our `if _:` wrapper
+                    copy_root._unmake_fst_tree()
+
+                    raise _ReparseShapeChanged
+
+                a = body[idx]
+
+            lineno, col_offset, need_block, no_block = shape_check
+            a_pos = a.pattern if a.__class__ is match_case else a  # match_case has no position of its own
+
+            if ((need_block and a.__class__ not in ASTS_LEAF_BLOCK)  # only the header was reparsed and the old body will be grafted on, must still be a block
+                or (no_block and a.__class__ in ASTS_LEAF_BLOCK)  # statement does not start its line (follows a block header colon or a semicolon) so it can not become a block statement
+                or ((a_col_offset := getattr(a_pos, 'col_offset', None)) is not None
+                    and (a_col_offset != col_offset or a_pos.lineno != lineno)  # statement no longer starts where it did so its relation to its siblings (indentation) may have changed
+            )):
+                copy_root._unmake_fst_tree()
+
+                raise _ReparseShapeChanged
+
         copy = copy_root.child_from_path(path)
 
         if not copy:
@@ -110,9 +140,16 @@ def _reparse_raw_base(
     return copy
 
 
-def _reparse_raw_stmtlike(self: fst.FST, new_lines: list[str], ln: int, col: int, end_ln: int, end_col: int) -> bool:
+def _reparse_raw_stmtlike(
+    self: fst.FST, new_lines: list[str], ln: int, col: int, end_ln: int, end_col: int
+) -> bool | None:
     """Reparse only statementlike or block header part of statementlike containing changes. We reparse minimum statement
-    level due to things like f/t-string debug strings."""
+    level due to things like f/t-string debug strings.
+
+    **Returns:**
+    - `True`: Reparsed.
+    - `False`: No statementlike to reparse found.
+    - `None`: Statementlike found but the change does not stay within it, nothing was modified."""
 
     if not (stmtlike := self.parent_stmtlike(True, False)):
         return False
@@ -178,7 +215,12 @@ def _reparse_raw_stmtlike(self: fst.FST, new_lines: list[str], ln: int, col: int
 
     # simple parse method is used, we put the source to be reparsed at the same location in an empty source with whatever headers are needed like `try`, `match` or just a generic `if` to allow for indentation
 
+    shape_lineno = pln + 1  # line and byte column where the reparsed statementlike must start in the wrapper source (where the line prefix is replaced by spaces)
+    shape_col_offset = pcol
+
     if is_match_case:
+        shape_lineno = (pat := stmtlikea.pattern).lineno  # no position of its own so we go by the pattern (wrapper keeps the original line as is so byte offset is good)
+        shape_col_offset = pat.col_offset
         copy_lines = ([bistr('')] * (pln - 1) +
                       [bistr('match _:')] +
                       lines[pln : pend_ln + 1])
@@ -229,13 +271,22 @@ def _reparse_raw_stmtlike(self: fst.FST, new_lines: list[str], ln: int, col: int
                 path = _PATH_BODY2
 
     if not in_blkhead:  # non-block statement or modifications not limited to block header part
+        if (next_stmtlike := stmtlike.next()) and next_stmtlike.bloc.ln == pend_ln:
+            return None  # another statement follows on the same line (semicolon), a change to this one can swallow or restructure that one so reparse everything
+
         copy_lines[pend_ln] = bistr(copy_lines[pend_ln][:pend_col])
 
-        _reparse_raw_base(stmtlike, new_lines, ln, col, end_ln, end_col, copy_lines, path, True, None,
-                          first_lineno, first_line_col_delta)
+        try:
+            _reparse_raw_base(stmtlike, new_lines, ln, col, end_ln, end_col, copy_lines, path, True, None,
+                              first_lineno, first_line_col_delta, (shape_lineno, shape_col_offset, False, not re_empty_line.match(lines[pln], 0, pcol)))
+        except _ReparseShapeChanged:
+            return None  # nothing was modified, caller falls back to reparse of the whole source
 
-        if is_elif:  # nuking a whole elif will parse but can do bad things to end positions
-            stmtlike._set_end_pos((a := stmtlike.a).end_lineno, a.end_col_offset)  # setting own position to what it currently is but will also propagate up the tree
+        if (end_col_offset := getattr(a := stmtlike.a, 'end_col_offset', None)) is None and (body := getattr(a, 'body', None)):  # match_case
+            end_col_offset = (a := body[-1]).end_col_offset
+
+        if end_col_offset is not None:  # the statement may end somewhere else now (nuking a whole elif, trailing tokens removed, etc...)
+            stmtlike._set_end_pos(a.end_lineno, end_col_offset)  # setting own position to what it currently is but will also propagate up the tree
 
         return True
 
@@ -254,8 +305,12 @@ def _reparse_raw_stmtlike(self: fst.FST, new_lines: list[str], ln: int, col: int
         elif stmtlike_cls is TryStar:  # ditto
             copy_lines.append(bistr(indent + 'except* Exception: pass'))
 
-    copy = _reparse_raw_base(stmtlike, new_lines, ln, col, end_ln, end_col, copy_lines, path, False, None,
-                             first_lineno, first_line_col_delta)
+    try:
+        copy = _reparse_raw_base(stmtlike, new_lines, ln, col, end_ln, end_col, copy_lines, path, False, None,
+                                 first_lineno, first_line_col_delta, (shape_lineno, shape_col_offset, True, False))
+    except _ReparseShapeChanged:
+        return None  # nothing was modified, caller falls back to reparse of the whole source
+
     copya = copy.a
 
     if not is_match_case:  # match_case doesn't have AST location
@@ -287,8 +342,16 @@ def _reparse_raw(self: fst.FST, code: Code | None, ln: int, col: int, end_ln: in
 
     new_lines = _code_as_lines(code)
 
-    if not _reparse_raw_stmtlike(self, new_lines, ln, col, end_ln, end_col):  # attempt to reparse only statement (or even only block header), if fails then no statement found above
+    try:
+        reparsed = _reparse_raw_stmtlike(self, new_lines, ln, col, end_ln, end_col)  # attempt to reparse only statement (or even only block header), if fails then no statement found above
+    except SyntaxError:  # nothing was modified yet, the new source may still be valid as a whole (indentation changed, first statement of a block commented out, etc...)
+        reparsed = None
+
+    if not reparsed:
         root = self.root
+
+        if reparsed is None:  # the change did not stay within the statement, everything could have changed so reparse from root
+            self = root
 
         if ((mode := root.a.__class__) is not Slice
             and (base := mode.__bases__[0]) not in (AST, mod, ExceptHandler, _slice)
